@@ -17,62 +17,37 @@ REQUIRED = {
 }
 
 
-def human_rules(ctx: Ctx):
-    model = ctx.model
-    rule = "T12"
-    ctx.rule(rule, floor=5, what="human_repr escape sets cover the position-sensitive delimiters and '%'")
-    fi = model.func("_url.URL.human_repr")
-    r = analyze(model, fi)
-    ctx.functions.add(fi.qual)
-    fold = Folder(model)
-    seen = {}
-    for e in r.by_kind("call"):
-        if e.func[0] == "global" and e.func[2] == "human_quote" and len(e.args) == 2:
-            src = e.args[0]
-            pos = None
-            if src[0] == "attr" and src[1] == S and src[2] in ("user", "password", "path", "fragment"):
-                pos = src[2]
-            elif src[0] in ("item", "elem") or any(t == ("attr", S, "query") for t in walk(src)):
-                pos = "query"
-            try:
-                chars = set(fold.fold(e.args[1]))
-            except CannotFold:
-                raise AnalysisError(f"human_repr: escape set {show(e.args[1])} cannot be folded")
-            if pos is None:
-                raise AnalysisError(f"human_repr: cannot tell which component {show(src)} is")
-            seen.setdefault(pos, set()).update(chars) if pos not in seen else seen.__setitem__(pos, seen[pos] & chars)
-    for pos, req in REQUIRED.items():
-        ctx.instance(rule)
-        got = seen.get(pos)
-        ctx.ob(rule, fi.qual, f"escape set of the {pos}", got is not None and req <= got,
-               f"human_repr escapes {''.join(sorted(got or ''))!r} in the {pos}; {''.join(sorted(req - (got or set())))!r} would change the parse there",
-               where(fi, fi.node), sample="".join(sorted(got or "")))
-    # human_quote always escapes '%' first, with upper-case %XX, and leaves printable text alone
-    hq = model.func("_quoters.human_quote")
-    rq = analyze(model, hq)
-    ctx.functions.add(hq.qual)
+def _hq_args(model, e):
+    """Positional view (text, unsafe) of a human_quote call, whichever way the arguments were passed."""
+    fi = model.func("_quoters.human_quote")
+    out = list(e.args)
+    kw = dict(e.kwargs)
+    for p in fi.params[len(out):]:
+        if p in kw:
+            out.append(kw[p])
+    return out
+
+
+def _human_quote_replace_loop(ctx, rule, hq, rq, replaces, sparam, uparam):
     ctx.instance(rule)
-    iters = [n for n in rq.loops.values()]
     pct_first = False
     upper = False
     repl_phis = set()       # the loop-carried text the escapes are applied to
-    for e in rq.by_kind("call"):
-        if e.func[0] == "attr" and e.func[2] == "replace" and len(e.args) == 2 and e.args[0][0] == "elem":
-            if e.func[1][0] == "phi":
-                repl_phis.add(e.func[1])
-            it = e.args[0][1]
-            if flatten(it) == [("lit", "%"), ("val", ("param", hq.params[1]))]:
-                pct_first = True
-            rep = flatten(e.args[1])        # '%' + two upper-case hex digits of the character, in any spelling
-            if len(rep) == 2 and rep[0] == ("lit", "%") and rep[1][0] == "fmt" and rep[1][2] == "02X" and \
-                    rep[1][1] == ("call", ("builtin", "ord"), (e.args[0],), ()):
-                upper = True
+    for e in replaces:
+        if e.func[1][0] == "phi":
+            repl_phis.add(e.func[1])
+        it = e.args[0][1]
+        if flatten(it) == [("lit", "%"), ("val", uparam)]:
+            pct_first = True
+        rep = flatten(e.args[1])        # '%' + two upper-case hex digits of the character, in any spelling
+        if len(rep) == 2 and rep[0] == ("lit", "%") and rep[1][0] == "fmt" and rep[1][2] == "02X" and \
+                rep[1][1] == ("call", ("builtin", "ord"), (e.args[0],), ()):
+            upper = True
     ctx.ob(rule, hq.qual, "'%' + unsafe, rendered %XX", pct_first and upper,
            f"human_quote must escape '%' before the position delimiters and render escapes as upper-case %XX (percent first: {pct_first}, %02X: {upper})",
            where(hq, hq.node), sample="for c in '%' + unsafe: replace(c, f'%{ord(c):02X}')")
     # the escape loop dominates every return of non-empty text: what is returned is built from the text *after* the
     # replacement of '%' + unsafe, on every path (a second escaping pass with other rules must not replace it)
-    sparam = ("param", hq.params[0])
     for st, v, node in rq.returns:
         if truth(sparam, st.facts) is False and v == sparam:
             continue
@@ -85,12 +60,133 @@ def human_rules(ctx: Ctx):
         ctx.ob(rule, hq.qual, f"return {show(v)[:60]}", uses_replaced and not uses_raw,
                "a return path of human_quote is built from the text before '%' and the position delimiters were replaced: "
                "delimiters survive on that path", where(hq, node), sample="built from the text after the replacement loop")
+
+
+def _human_quote_translate(ctx, rule, hq, rq, translates, sparam, uparam):
+    """Idiom (B): one simultaneous pass `s.translate(T)` with T = str.maketrans({c: '%XX' for c in '%' + unsafe}) (possibly kept
+    in a memo dict keyed by `unsafe`); text with non-printable characters is rebuilt character by character, each
+    printable character going through the same table - looked up by its code point, which is what maketrans keys are."""
+    memo = {}       # module-level memo: global table term -> stored value
+    for e in rq.by_kind("store_sub"):
+        base = e.base
+        while base[0] == "mut":
+            base = base[1]
+        if base[0] == "global" and e.index == uparam:
+            memo[base] = e.value
+
+    def table_def(t):
+        if t[0] == "sub" and t[1][0] == "global" and t[2] == uparam and t[1] in memo:
+            return memo[t[1]]
+        return t
+
+    def table_ok(t):
+        t = table_def(t)
+        if not (t[0] == "call" and t[1][0] == "attr" and t[1][2] == "maketrans" and len(t[2]) == 1):
+            return False, f"{show(t)[:50]} is not str.maketrans(<dict>)"
+        d = t[2][0]
+        if not (d[0] == "comp" and d[1] == "dict" and len(d[2]) == 1 and d[2][0][0] == "tuple" and len(d[2][0][1]) == 2 and len(d[3]) == 1):
+            return False, "the table is not a dict comprehension over one iterable"
+        key, val = d[2][0][1]
+        if flatten(d[3][0]) != [("lit", "%"), ("val", uparam)]:
+            return False, "the table is not built from '%' + unsafe"
+        rep = flatten(val)
+        if not (key[0] == "elem" and len(rep) == 2 and rep[0] == ("lit", "%") and rep[1][0] == "fmt" and rep[1][2] == "02X"
+                and rep[1][1] == ("call", ("builtin", "ord"), (key,), ())):
+            return False, "an entry is not c -> '%' + two upper-case hex digits of c"
+        return True, ""
+    tables = {e.args[0] for e in translates}
+    ctx.instance(rule)
+    verdicts = [table_ok(t) for t in tables]
+    ctx.ob(rule, hq.qual, "'%' + unsafe, rendered %XX", all(ok for ok, _w in verdicts),
+           "human_quote's translation table: " + "; ".join(w for ok, w in verdicts if not ok), where(hq, hq.node),
+           sample="s.translate(str.maketrans({c: f'%{ord(c):02X}' for c in '%' + unsafe}))")
+    for st, v, node in rq.returns:
+        if truth(sparam, st.facts) is False and v == sparam:
+            continue
+        ctx.instance(rule)
+        problems = []
+        if v[0] == "call" and v[1][0] == "attr" and v[1][2] == "translate" and v[1][1] == sparam and v[2] and v[2][0] in tables:
+            pass        # the whole text through the table
+        elif v[0] == "call" and v[1] == ("attr", ("const", ""), "join") and len(v[2]) == 1 and v[2][0][0] == "comp" and v[2][0][3] == (sparam,):
+            for elt in v[2][0][2]:
+                ch = [t for t in walk(elt) if t[0] == "elem" and t[1] == sparam]
+                if not ch:
+                    problems.append(f"element {show(elt)[:40]} is not derived from a character of the text")
+                    continue
+                c = ch[0]
+                if elt[0] == "call" and elt[1][0] == "attr" and elt[1][2] == "get" and elt[1][1] in tables and len(elt[2]) == 2:
+                    if elt[2][0] != ("call", ("builtin", "ord"), (c,), ()):
+                        problems.append(f"the table is keyed by code points but is looked up with {show(elt[2][0])[:30]}: the look-up never "
+                                        "hits and '%' and the delimiters are copied raw")
+                    if elt[2][1] != c:
+                        problems.append("the look-up falls back to something other than the character itself")
+                elif elt[0] == "call" and elt[1][0] in ("ext", "global") and elt[1][-1] == "quote" and elt[2] == (c,):
+                    if truth(("call", ("attr", c, "isprintable"), (), ()), st.facts) is True:
+                        problems.append("printable characters are escaped by quote()")
+                elif elt == c:
+                    problems.append("a character is copied without going through the table")
+                else:
+                    problems.append(f"element {show(elt)[:40]} is neither a table look-up nor quote(c)")
+        else:
+            problems.append(f"{show(v)[:50]} is neither the text translated by the table nor a per-character rebuild through it")
+        ctx.ob(rule, hq.qual, f"return {show(v)[:60]}", not problems,
+               "a return path of human_quote does not escape '%' and the position delimiters: " + "; ".join(problems), where(hq, node),
+               sample="every character goes through the escape table")
+
+
+def human_rules(ctx: Ctx):
+    model = ctx.model
+    rule = "T12"
+    ctx.rule(rule, floor=5, what="human_repr escape sets cover the position-sensitive delimiters and '%'")
+    fi = model.func("_url.URL.human_repr")
+    r = analyze(model, fi)
+    ctx.functions.add(fi.qual)
+    fold = Folder(model)
+    seen = {}
+    for e in r.by_kind("call"):
+        if e.func[0] == "global" and e.func[2] == "human_quote" and len(_hq_args(model, e)) == 2:
+            hq_args = _hq_args(model, e)
+            src = hq_args[0]
+            pos = None
+            if src[0] == "attr" and src[1] == S and src[2] in ("user", "password", "path", "fragment"):
+                pos = src[2]
+            elif src[0] in ("item", "elem") or any(t == ("attr", S, "query") for t in walk(src)):
+                pos = "query"
+            try:
+                chars = set(fold.fold(hq_args[1]))
+            except CannotFold:
+                raise AnalysisError(f"human_repr: escape set {show(hq_args[1])} cannot be folded")
+            if pos is None:
+                raise AnalysisError(f"human_repr: cannot tell which component {show(src)} is")
+            seen.setdefault(pos, set()).update(chars) if pos not in seen else seen.__setitem__(pos, seen[pos] & chars)
+    for pos, req in REQUIRED.items():
+        ctx.instance(rule)
+        got = seen.get(pos)
+        ctx.ob(rule, fi.qual, f"escape set of the {pos}", got is not None and req <= got,
+               f"human_repr escapes {''.join(sorted(got or ''))!r} in the {pos}; {''.join(sorted(req - (got or set())))!r} would change the parse there",
+               where(fi, fi.node), sample="".join(sorted(got or "")))
+    # human_quote always escapes '%' first, with upper-case %XX, and leaves printable text alone.  Two idioms are understood:
+    # (A) a loop of str.replace over '%' + unsafe, (B) one str.translate with a table built from '%' + unsafe.
+    hq = model.func("_quoters.human_quote")
+    rq = analyze(model, hq)
+    ctx.functions.add(hq.qual)
+    sparam = ("param", hq.params[0])
+    uparam = ("param", hq.params[1])
+    replaces = [e for e in rq.by_kind("call")
+                if e.func[0] == "attr" and e.func[2] == "replace" and len(e.args) == 2 and e.args[0][0] == "elem"]
+    translates = [e for e in rq.by_kind("call") if e.func[0] == "attr" and e.func[2] == "translate" and len(e.args) == 1]
+    if replaces:
+        _human_quote_replace_loop(ctx, rule, hq, rq, replaces, sparam, uparam)
+    elif translates:
+        _human_quote_translate(ctx, rule, hq, rq, translates, sparam, uparam)
+    else:
+        raise AnalysisError("human_quote: the escape step is neither a str.replace loop nor a str.translate table (unknown idiom)")
     # the query is rendered pair by pair: key and value are the two halves of the *same* element of query.items()
     # (a lookup query[k] returns the first value of a repeated key)
     pairs = {}
     for e in r.by_kind("call"):
-        if e.func[0] == "global" and e.func[2] == "human_quote" and e.args:
-            a = e.args[0]
+        if e.func[0] == "global" and e.func[2] == "human_quote" and _hq_args(model, e):
+            a = _hq_args(model, e)[0]
             if a[0] == "item" and a[1][0] == "elem":
                 pairs.setdefault(a[1], set()).add(a[2])
             elif a[0] in ("sub", "call") and any(t == ("attr", S, "query") for t in walk(a)):
